@@ -206,6 +206,72 @@ pub fn run_case(rng: &mut Rng) -> CaseOut {
     let ops: Vec<&'static str> = vec!["f", "g", "h", "k", "var", "c", "d", "e", "u", "w", "app", "pair", "lam", "sum", "let", "idx", "bb", "ite"];
     let cfg = GenCfg { lang, ops, ns, max_depth: 2, max_names: 4, shadow: rng.chance(1, 3) };
     let mut h = gen_history(rng, &cfg, 6, 5);
+    // cost race in a sparsely populated e-graph: few leaves, a wide or deep "bystander" term over one leaf (the only other entry of the
+    // extractor's work list for a while), and a class with two to four members of different cost over another leaf that all become
+    // ready at the same moment; parents on top of the race class inherit whatever it was finalised with. Insertion order is random.
+    if rng.chance(1, 4) {
+        out.inc("cost_race_egraphs");
+        let leaf = |rng: &mut Rng| -> Tm {
+            match rng.below(5) {
+                0 => Tm::leaf("c", vec![]),
+                1 => Tm::leaf("d", vec![]),
+                2 => Tm::leaf("e", vec![]),
+                3 => Tm::leaf("var", vec![0]),
+                _ => Tm::leaf("g", vec![1]),
+            }
+        };
+        let un = |op: &'static str, a: &Tm| Tm::node(op, vec![], vec![(vec![], a.clone())]);
+        let bin = |op: &'static str, a: &Tm, b: &Tm| Tm::node(op, vec![], vec![(vec![], a.clone()), (vec![], b.clone())]);
+        let ite = |a: &Tm, b: &Tm, c: &Tm| Tm::node("ite", vec![], vec![(vec![], a.clone()), (vec![], b.clone()), (vec![], c.clone())]);
+        let member = |rng: &mut Rng, a: &Tm| -> Tm {
+            match rng.below(7) {
+                0 => un("u", a),
+                1 => un("w", a),
+                2 => bin("app", a, a),
+                3 => bin("pair", a, a),
+                4 => ite(a, a, a),
+                5 => un("u", &un("w", a)),
+                _ => bin("app", &un("u", a), a),
+            }
+        };
+        let mut terms: Vec<Tm> = vec![];
+        let mut unions: Vec<(usize, usize)> = vec![];
+        let a = leaf(rng);
+        for _ in 0..rng.below(3) {
+            let b = leaf(rng);
+            let by = match rng.below(4) {
+                0 => ite(&b, &b, &b),
+                1 => bin("app", &bin("app", &b, &b), &bin("pair", &b, &b)),
+                2 => ite(&un("u", &b), &b, &un("w", &b)),
+                _ => un("u", &un("u", &un("u", &un("w", &b)))),
+            };
+            terms.push(by);
+        }
+        let base = terms.len();
+        for _ in 0..rng.range(2, 4) {
+            terms.push(member(rng, &a));
+        }
+        for i in base + 1..terms.len() {
+            unions.push((base, i));
+        }
+        let race = terms[base].clone();
+        for _ in 0..rng.below(3) {
+            terms.push(member(rng, &race));
+        }
+        let mut order: Vec<usize> = (0..terms.len()).collect();
+        rng.shuffle(&mut order);
+        let mut ops: Vec<HOp> = order.into_iter().map(HOp::Add).collect();
+        rng.shuffle(&mut unions);
+        ops.extend(unions.into_iter().map(|(x, y)| HOp::Union(x, y)));
+        if rng.chance(1, 2) {
+            // on its own; otherwise on top of the generated history (a busier work list)
+            h = History { terms, ops, ns: cfg.ns, families: vec!["cost-race"] };
+        } else {
+            let off = h.terms.len();
+            h.terms.extend(terms);
+            h.ops.extend(ops.into_iter().map(|o| match o { HOp::Add(i) => HOp::Add(i + off), HOp::Union(x, y) => HOp::Union(x + off, y + off) }));
+        }
+    }
     // nodes whose children repeat a class at adjacent and at non-adjacent positions (only representative of their class,
     // or the cheapest one after a union with something bigger)
     if rng.chance(1, 3) && !h.terms.is_empty() {
